@@ -207,7 +207,6 @@ func c16BridgeMain(t *testing.T) {
 	ks := []int{2, 4, 12}
 	run.Floor("overlap_runs", 100)
 	run.Floor("runs_with_traffic_reported", 100)
-	run.Floor("runs_with_two_reports_in_flight", 20)
 	scope := []string{"tunnox-core/internal/protocol/session/tunnel", "tunnox-core/internal/stream"}
 
 	for trial := 0; trial < n && run.Violations() < 20; trial++ {
